@@ -68,16 +68,63 @@ Proof. induction a as [|x a IH]; simpl; [destruct b; reflexivity|]. rewrite IH. 
 Lemma trimmed_not_space t : trimmed (32 :: t) = false.
 Proof. reflexivity. Qed.
 
+Lemma ltb_mid {A} (a : list A) x b : Nat.ltb (length a) (length (a ++ x :: b)) = true.
+Proof. apply Nat.ltb_lt. rewrite app_length. simpl. lia. Qed.
+
+Lemma firstn_S_mid {A} (a : list A) x b : firstn (S (length a)) (a ++ x :: b) = a ++ [x].
+Proof. induction a as [|y a IH]; simpl; [destruct b; reflexivity|]. simpl in IH. rewrite IH. reflexivity. Qed.
+
+Lemma skipn_S_mid {A} (a : list A) x b : skipn (S (length a)) (a ++ x :: b) = b.
+Proof. induction a as [|y a IH]; simpl; [reflexivity|]. exact IH. Qed.
+
+(* what the guard says about a verdict that involves lines length pre1 < length pre,
+   both assigning x *)
+Lemma guard_facts pre1 lp mid l post x vd ap a :
+  l_body lp = Some ap -> a_var ap = x -> l_body l = Some a -> a_var a = x ->
+  ((vd_flagged vd = length (pre1 ++ lp :: mid) /\ vd_because vd = length pre1) \/
+   (vd_flagged vd = length pre1 /\ vd_because vd = length (pre1 ++ lp :: mid))) ->
+  guard ((pre1 ++ lp :: mid) ++ l :: post) vd = true ->
+  plain_on x (pre1 ++ lp :: mid) = true /\ eager_plain_line l = true /\
+  (vd_flagged vd = length pre1 -> eager_plain mid = true) /\
+  backward_default_ok ((pre1 ++ lp :: mid) ++ l :: post) vd = true /\
+  forward_same_ok ((pre1 ++ lp :: mid) ++ l :: post) vd = true.
+Proof.
+  intros Hlb Hlv Eb Ex Hcase Hg.
+  assert (Hlen : (length pre1 < length (pre1 ++ lp :: mid))%nat) by (rewrite app_length; simpl; lia).
+  unfold guard in Hg.
+  apply andb_true_iff in Hg as [Hg Hfwd]. apply andb_true_iff in Hg as [Hg Hbwd].
+  apply andb_true_iff in Hg as [Hpo Hmid].
+  assert (Hmax : Nat.max (vd_flagged vd) (vd_because vd) = length (pre1 ++ lp :: mid))
+    by (destruct Hcase as [[-> ->]|[-> ->]]; lia).
+  assert (Hmin : Nat.min (vd_flagged vd) (vd_because vd) = length pre1)
+    by (destruct Hcase as [[-> ->]|[-> ->]]; lia).
+  assert (Hvar : line_var ((pre1 ++ lp :: mid) ++ l :: post) (vd_flagged vd) = x).
+  { unfold line_var. destruct Hcase as [[-> _]|[-> _]].
+    - rewrite nth_error_mid, Eb. exact Ex.
+    - rewrite <- app_assoc. simpl app. rewrite nth_error_mid, Hlb. exact Hlv. }
+  rewrite Hmax, Hvar, firstn_S_mid, plain_on_app in Hpo.
+  apply andb_true_iff in Hpo as [Hpo Hl]. unfold plain_on in Hl. simpl in Hl.
+  rewrite andb_true_r in Hl. unfold assigns in Hl. rewrite Eb, Ex, str_eqb_refl in Hl. simpl in Hl.
+  repeat split; auto.
+  intro Hf. rewrite Hmax, Hmin in Hmid. rewrite Hf in Hmid. destruct Hcase as [[Hc _]|[_ Hc]]; [lia|].
+  rewrite Hc in Hmid. apply Nat.ltb_lt in Hlen. rewrite Hlen in Hmid.
+  unfold between in Hmid.
+  rewrite <- app_assoc in Hmid. simpl app in Hmid. rewrite skipn_S_mid in Hmid.
+  replace (length (pre1 ++ lp :: mid) - S (length pre1))%nat with (length mid) in Hmid
+    by (rewrite app_length; simpl; lia).
+  rewrite firstn_mid in Hmid. exact Hmid.
+Qed.
+
 (* the verdicts emitted while processing line l = p[length pre] *)
 Lemma line_sound pre l post s s' vs vd :
-  (forall fuel, inv fuel pre s) ->
+  inv_struct pre s ->
+  (forall x, plain_on x pre = true -> forall fuel, inv_x fuel pre s x) ->
   check_line s (length pre) l = Ok (s', vs) -> In vd vs ->
   wf_program (pre ++ l :: post) = true ->
   guard (pre ++ l :: post) vd = true ->
   deletable (pre ++ l :: post) (vd_flagged vd).
 Proof.
-  intros Hinv Hck Hin Hwf Hg.
-  unfold guard in Hg. apply andb_true_iff in Hg as [Hg Hfwd]. apply andb_true_iff in Hg as [Hep Hbwd].
+  intros Hstruct Hinv Hck Hin Hwf Hg.
   unfold check_line in Hck.
   destruct (update_include_path s l) as [s1|] eqn:E1; [|discriminate].
   apply update_include_path_vars in E1.
@@ -88,29 +135,37 @@ Proof.
   rewrite E1 in Hrev, Hcases. clear E2 Hin.
   set (x := a_var a) in *.
   set (v := vi_var (s_vars s x)) in *.
-  assert (HinvX : forall fuel, inv_var (store_after fuel pre) (writes_of x 0 pre) (no_shell_on x pre) x v)
-    by (intro fuel; apply Hinv).
-  destruct (HinvX 0%nat) as (W1 & _). rewrite W1 in Hrev.
+  destruct (Hstruct x) as (W1 & _). unfold mv in W1. fold v in W1. rewrite W1 in Hrev.
   destruct prev as [pidx ap].
   destruct (writes_of_last _ _ _ _ _ _ Hrev) as (pre1 & lp & mid & Epre & Hp & Hlb & Hlv & Hmid & _).
   simpl in Hp. subst pidx.
   assert (Hwne : writes_of x 0 pre <> []) by (intro E; rewrite E in Hrev; discriminate).
-  (* facts about the whole program *)
-  rewrite eager_plain_app in Hep. apply andb_true_iff in Hep as [Hep_pre Hep_rest].
-  simpl in Hep_rest. apply andb_true_iff in Hep_rest as [Hep_l _].
-  assert (Hpl : splain (spec_line l) = true) by (rewrite splain_spec_line; exact Hep_l).
   assert (Hsl : spec_line l = Some (spec_assign a)) by (unfold spec_line; rewrite Eb; reflexivity).
   assert (Hwf_a : trimmed (render (a_val a)) = true).
   { unfold wf_program in Hwf. rewrite forallb_app in Hwf. apply andb_true_iff in Hwf as [_ Hwf].
     simpl in Hwf. apply andb_true_iff in Hwf as [Hwf _]. unfold line_ok in Hwf. rewrite Eb in Hwf.
     unfold assign_ok in Hwf. apply andb_true_iff in Hwf as [_ Hwf]. exact Hwf. }
+  assert (Hfacts :
+    ((vd_flagged vd = length pre /\ vd_because vd = length pre1) \/
+     (vd_flagged vd = length pre1 /\ vd_because vd = length pre)) ->
+    plain_on x pre = true /\ eager_plain_line l = true /\
+    (vd_flagged vd = length pre1 -> eager_plain mid = true) /\
+    backward_default_ok (pre ++ l :: post) vd = true /\
+    forward_same_ok (pre ++ l :: post) vd = true).
+  { intro Hc. subst pre. apply (guard_facts pre1 lp mid l post x vd ap a); auto. }
+  assert (Hfl : (vd_flagged vd = length pre /\ vd_because vd = length pre1) \/
+                (vd_flagged vd = length pre1 /\ vd_because vd = length pre)).
+  { destruct Hcases as [[Hvd _]|[[Hvd _]|[(Hvd & _)|(Hvd & _)]]]; subst vd; simpl; auto. }
+  destruct (Hfacts Hfl) as (Hpo & Hep_l & Hep_mid0 & Hbwd & Hfwd). clear Hfacts Hg.
+  assert (HinvX : forall fuel, inv_var (store_after fuel pre) (writes_of x 0 pre) (no_shell_on x pre) x v)
+    by (intro fuel; exact (Hinv x Hpo fuel)).
+  assert (Hpl : splain (spec_line l) = true) by (rewrite splain_spec_line; exact Hep_l).
   destruct Hcases as [[Hvd Hop]|[[Hvd Hop]|[(Hvd & Hop & Hk & Hcv)|(Hvd & Hop & Hk)]]]; subst vd.
   - (* overwritten: the earlier line lp is flagged *)
     simpl vd_flagged. subst pre. rewrite <- app_assoc. simpl app.
     apply bwd_deletable. intros fuel y.
     rewrite Hsl. simpl exec_line.
-    rewrite eager_plain_app in Hep_pre. apply andb_true_iff in Hep_pre as [_ Hep_mid].
-    simpl in Hep_mid. apply andb_true_iff in Hep_mid as [_ Hep_mid].
+    assert (Hep_mid : eager_plain mid = true) by (apply Hep_mid0; reflexivity).
     rewrite Hsl in Hpl.
     rewrite !(exec_assign_plain fuel _ _ Hpl). simpl s_name.
     destruct (str_eqb (a_var a) y) eqn:Ey.
@@ -131,7 +186,7 @@ Proof.
     + (* the same text again *)
       unfold forward_same_ok in Hfwd. simpl in Hfwd.
       assert (Hlt : Nat.ltb (length pre1) (length pre) = true).
-      { apply Nat.ltb_lt. subst pre. rewrite app_length. simpl. lia. }
+      { subst pre. apply ltb_mid. }
       rewrite Hlt in Hfwd. unfold line_op, line_var in Hfwd. rewrite nth_error_mid, Eb in Hfwd.
       simpl in Hfwd. rewrite firstn_mid in Hfwd.
       assert (Hns : no_shell_on x pre = true).
@@ -154,7 +209,7 @@ Proof.
     assert (Hfirst : a_op a = OpDefault -> forallb (fun l0 => negb (assigns x l0)) pre1 = true).
     { intro Ho. unfold backward_default_ok in Hbwd. simpl vd_flagged in Hbwd. simpl vd_because in Hbwd.
       assert (Hlt : Nat.ltb (length pre1) (length pre) = true).
-      { apply Nat.ltb_lt. subst pre. rewrite app_length. simpl. lia. }
+      { subst pre. apply ltb_mid. }
       rewrite Hlt in Hbwd.
       assert (Hlo : line_op (pre ++ l :: post) (length pre) = Some OpDefault).
       { unfold line_op. rewrite nth_error_mid, Eb. simpl. rewrite Ho. reflexivity. }
@@ -169,8 +224,7 @@ Proof.
     subst pre. rewrite <- app_assoc. simpl app.
     apply bwd_deletable. intros fuel y.
     rewrite Hsl. simpl exec_line.
-    rewrite eager_plain_app in Hep_pre. apply andb_true_iff in Hep_pre as [_ Hep_mid].
-    simpl in Hep_mid. apply andb_true_iff in Hep_mid as [_ Hep_mid].
+    assert (Hep_mid : eager_plain mid = true) by (apply Hep_mid0; reflexivity).
     rewrite Hsl in Hpl.
     rewrite !(exec_assign_plain fuel _ _ Hpl). simpl s_name.
     destruct (str_eqb (a_var a) y) eqn:Ey.
@@ -195,8 +249,7 @@ Proof.
     simpl vd_flagged. subst pre. rewrite <- app_assoc. simpl app.
     apply bwd_deletable. intros fuel y.
     rewrite Hsl. simpl exec_line.
-    rewrite eager_plain_app in Hep_pre. apply andb_true_iff in Hep_pre as [_ Hep_mid].
-    simpl in Hep_mid. apply andb_true_iff in Hep_mid as [_ Hep_mid].
+    assert (Hep_mid : eager_plain mid = true) by (apply Hep_mid0; reflexivity).
     rewrite Hsl in Hpl.
     rewrite !(exec_assign_plain fuel _ _ Hpl). simpl s_name.
     destruct (str_eqb (a_var a) y) eqn:Ey.
@@ -210,24 +263,24 @@ Qed.
 
 (* all lines: the invariant is carried along the prefix *)
 Lemma sound_gen : forall ls pre s vs,
-  (forall fuel, inv fuel pre s) ->
+  inv_struct pre s ->
+  (forall x, plain_on x pre = true -> forall fuel, inv_x fuel pre s x) ->
   check_from s (length pre) ls = Ok vs ->
   wf_program (pre ++ ls) = true ->
   forall vd, In vd vs -> guard (pre ++ ls) vd = true -> deletable (pre ++ ls) (vd_flagged vd).
 Proof.
-  induction ls as [|l ls IH]; intros pre s vs Hinv Hck Hwf vd Hin Hg.
+  induction ls as [|l ls IH]; intros pre s vs Hstruct Hinv Hck Hwf vd Hin Hg.
   - simpl in Hck. inversion Hck; subst. destruct Hin.
   - simpl in Hck. destruct (check_line s (length pre) l) as [[s' vs0]|] eqn:E1; [|discriminate].
     destruct (check_from s' (S (length pre)) ls) as [rest|] eqn:E2; [|discriminate].
     inversion Hck; subst vs. apply in_app_or in Hin as [Hin|Hin].
     + eapply line_sound; eauto.
-    + assert (Hl : eager_plain_line l = true).
-      { unfold guard in Hg. apply andb_true_iff in Hg as [Hg _]. apply andb_true_iff in Hg as [Hg _].
-        rewrite eager_plain_app in Hg. apply andb_true_iff in Hg as [_ Hg]. simpl in Hg.
-        apply andb_true_iff in Hg as [Hg _]. exact Hg. }
-      replace (pre ++ l :: ls) with ((pre ++ [l]) ++ ls) in * by (rewrite <- app_assoc; reflexivity).
+    + replace (pre ++ l :: ls) with ((pre ++ [l]) ++ ls) in * by (rewrite <- app_assoc; reflexivity).
       apply (IH (pre ++ [l]) s' rest); auto.
-      * intro fuel. eapply inv_step; eauto.
+      * eapply inv_struct_step; eauto.
+      * intros x Hpo fuel. rewrite plain_on_app in Hpo. apply andb_true_iff in Hpo as [Hpo Hl].
+        apply (inv_x_step fuel pre s l s' vs0 x); auto.
+        intro Ha. unfold plain_on in Hl. simpl in Hl. rewrite Ha, andb_true_r in Hl. exact Hl.
       * rewrite app_length. simpl. rewrite Nat.add_1_r. exact E2.
 Qed.
 
@@ -235,5 +288,7 @@ Qed.
 Theorem verdict_sound_partial : verdict_sound_on (fun p vd => guard p vd = true).
 Proof.
   intros p vs vd Hwf Hck Hin Hg.
-  apply (sound_gen p [] new_scope vs); auto. intro fuel. apply inv_init.
+  apply (sound_gen p [] new_scope vs); auto.
+  - apply inv_struct_init.
+  - intros x _ fuel. apply inv_x_init.
 Qed.
